@@ -35,6 +35,7 @@ fn main() {
     }
 
     let mut check = Check::new("C14", args);
+    check.level = "fault_enumeration";
     let tier = check.tier();
 
     check.rule = ec::C14_RULE.to_string();
